@@ -1613,6 +1613,9 @@ func (g Gateway) SubscribeToEvents(in *hydrapb.SubscribeToEventsRequest, eventSe
 	// Get the server context
 	hydraInterface := g.ZeusInterface.GetHydra()
 
+	// events are produced on the writers' goroutines; gRPC allows only one SendMsg at a time on a stream
+	var sendMu sync.Mutex
+
 	eventCallbackFunction := func(event *swamp.Event) {
 
 		if event == nil {
@@ -1664,6 +1667,8 @@ func (g Gateway) SubscribeToEvents(in *hydrapb.SubscribeToEventsRequest, eventSe
 		}
 
 		// send the message to the client
+		sendMu.Lock()
+		defer sendMu.Unlock()
 		if sendErr := eventServer.SendMsg(&hydrapb.SubscribeToEventsResponse{
 			SwampName:       eventSwampName,
 			Treasure:        convertedTreasure,
